@@ -119,7 +119,7 @@ def configs(tier, seed):
     # functionals are operators into the field: derivative(x)(d) of derived functionals (chain rules through
     # gradients) -- same recipes as C09
     from harness import funcs
-    for cid, rn, sk in funcs.instances(tier):
+    for cid, rn, sk in funcs.instances(tier, harness='C06'):
         if rn.startswith('derived/') and sk != 'field':
             out.append(('fderiv/' + cid, dict(kind='fderiv', recipe=rn, sk=sk)))
     rnd = random.Random(seed)
